@@ -38,11 +38,15 @@ func (c06) Gen(r *simrt.Rand, idx int, tier string) *Case {
 		var b, u strings.Builder
 		b.WriteString(fmt.Sprintf("%s open Assets:Depot\n%s open Equity:Equity\n\n", start, start))
 		n := r.Range(3, 5)
+		zeroTotal := r.P(0.3)
 		var parts []Q
 		for i := 0; i < n; i++ {
 			q := Q(r.Range(1, 9999)) * 100
 			if r.P(0.5) {
 				q = Q(r.Range(1, 99)) * 10100
+			}
+			if zeroTotal {
+				q = Q(r.Range(1, 999)) * QScale // whole numbers: their float sum is exact
 			}
 			parts = append(parts, q)
 		}
@@ -62,6 +66,26 @@ func (c06) Gen(r *simrt.Rand, idx int, tier string) *Case {
 			// one commodity classified twice: whatever knut does about it, it must
 			// do the same on every run
 			fmt.Fprintf(&u, "\"GroupA:Sub\":\n  - \"K1\"\n")
+		}
+		if zeroTotal {
+			// a long/short book whose total is exactly zero for a while: the weights
+			// are then +Inf, -Inf and (for a group that nets to zero) NaN; whatever
+			// knut prints for them, it must print the same on every run
+			var total Q
+			for _, q := range parts {
+				total += q * Q(groups)
+			}
+			mq := Q(r.Range(1, 999)) * QScale
+			fmt.Fprintf(&b, "%s open Liabilities:Short\n%s price KM 1 CHF\n%s price SH 1 CHF\n", start, start, start)
+			fmt.Fprintf(&b, "%s \"long\"\nEquity:Equity Assets:Depot %s KM\n\n", start+1, mq.String())
+			fmt.Fprintf(&b, "%s \"short\"\nLiabilities:Short Equity:Equity %s SH\n\n", start+2, mq.String())
+			fmt.Fprintf(&b, "%s \"margin\"\nLiabilities:Short Equity:Equity %s CHF\n\n", start+3, total.String())
+			name := []string{"Mixed", "GroupAA", "Hedge", "Balanced", "Zed"}[r.Intn(5)]
+			fmt.Fprintf(&u, "%q:\n  - \"KM\"\n  - \"SH\"\n", name)
+			if r.P(0.6) {
+				// the short cash leg in a class of its own, sorted before or after the others by name
+				fmt.Fprintf(&u, "%q:\n  - \"CHF\"\n", []string{"AACash", "Cash", "Margin"}[r.Intn(3)])
+			}
 		}
 		end := start + Day(r.Range(40, 200))
 		fmt.Fprintf(&b, "%s \"later\"\nEquity:Equity Assets:Depot 1 CHF\n\n", end)
